@@ -58,7 +58,9 @@ def build_world():
     contract(w, 'iface.Handler.handleMethodCallMessage', {'self': Ref('Handler'), 'msg': Ref(M)}, fn=handleMethodCallMessage,
              modifies=lambda cx: [(cx.args['self'], 'Handler.g_handled'), ('*', BP + '.g_nrecv'), ('*', BP + '.g_lastrecv')],
              ensures=lambda cx: [('handled', cx.new(cx.args['self']).g_handled == cx.old(cx.args['self']).g_handled + 1)],
-             raises={bus.DError: lambda cx: z3.BoolVal(True), Exception: lambda cx: z3.BoolVal(True)}, may_raise_any=True, assumed=True)
+             raises={bus.DError: lambda cx: z3.BoolVal(True), Exception: lambda cx: z3.BoolVal(True)}, may_raise_any=True, assumed=True,
+             # g_handled counts invocations: a handler that answers by raising a DBus error has handled the call as well
+             raises_post={bus.DError: lambda cx: [('handled', cx.new(cx.args['self']).g_handled == cx.old(cx.args['self']).g_handled + 1)]})
     contract(w, 'iface.Transport.loseConnection', {'self': Ref('Transport')}, fn=loseConnection,
              modifies=lambda cx: [(cx.args['self'], 'Transport.g_closed')],
              ensures=lambda cx: [('closed', cx.new(cx.args['self']).g_closed)], assumed=True)
